@@ -98,9 +98,43 @@ func (v *verifyCtx) env(x *Exec, st *State, fr *Frame) *CEnv {
 	return e
 }
 
+// rangeInv: the built-in invariant of compiler-generated range loops over slices/arrays/strings:
+// -1 <= rangeindex < len (the ranged length is the right operand of the loop test).
+func (x *Exec) rangeInv(fr *Frame, b *ssa.BasicBlock) *Term {
+	for k := 0; k < skipPhis(b); k++ {
+		phi := b.Instrs[k].(*ssa.Phi)
+		if phi.Comment != "rangeindex" {
+			continue
+		}
+		v, ok := fr.get(phi)
+		if !ok {
+			continue
+		}
+		s, isS := v.(Scalar)
+		if !isS {
+			continue
+		}
+		inv := cmp("bvsle", Const(s.T.S.W, ^uint64(0)), s.T)
+		for _, ins := range b.Instrs {
+			if bo, isB := ins.(*ssa.BinOp); isB && bo.Op.String() == "<" {
+				if add, isAdd := bo.X.(*ssa.BinOp); isAdd && add.X == ssa.Value(phi) {
+					if lv, has := fr.get(bo.Y); has {
+						inv = And(inv, cmp("bvslt", s.T, lv.(Scalar).T))
+					} else if c, isC := bo.Y.(*ssa.Const); isC {
+						inv = And(inv, cmp("bvslt", s.T, x.constVal(c).(Scalar).T))
+					}
+				}
+			}
+		}
+		return inv
+	}
+	return True()
+}
+
 func (v *verifyCtx) enterLoop(x *Exec, st *State, fr *Frame, b *ssa.BasicBlock, lc *LoopC) {
 	n := v.loopOrd(b)
 	e := v.env(x, st, fr)
+	x.record(Oblig{Name: fmt.Sprintf("%s#loop%d.rangeindex.entry", fnName(v.fn), n), Cond: x.rangeInv(fr, b), PC: st.PC(), Kind: "invariant", Fn: fnName(v.fn)})
 	for i, inv := range lc.Inv {
 		x.record(Oblig{Name: fmt.Sprintf("%s#loop%d.invariant%d.entry", fnName(v.fn), n, i+1), Cond: e.Formula(inv), PC: st.PC(), Kind: "invariant", Fn: fnName(v.fn)})
 	}
@@ -139,6 +173,7 @@ func (v *verifyCtx) enterLoop(x *Exec, st *State, fr *Frame, b *ssa.BasicBlock, 
 	}
 	st.Loops = append(st.Loops, &loopAct{hdr: b, mods: mods, mark: mark, n: n})
 	e = v.env(x, st, fr)
+	st.Assume = append(st.Assume, Implies(st.Branch(), x.rangeInv(fr, b)))
 	for _, inv := range lc.Inv {
 		st.Assume = append(st.Assume, Implies(st.Branch(), e.Formula(inv)))
 	}
@@ -154,6 +189,7 @@ func (v *verifyCtx) enterLoop(x *Exec, st *State, fr *Frame, b *ssa.BasicBlock, 
 func (v *verifyCtx) backEdge(x *Exec, st *State, fr *Frame, b *ssa.BasicBlock, lc *LoopC) {
 	n := v.loopOrd(b)
 	e := v.env(x, st, fr)
+	x.record(Oblig{Name: fmt.Sprintf("%s#loop%d.rangeindex.preserved", fnName(v.fn), n), Cond: x.rangeInv(fr, b), PC: st.PC(), Kind: "invariant", Fn: fnName(v.fn)})
 	for i, inv := range lc.Inv {
 		x.record(Oblig{Name: fmt.Sprintf("%s#loop%d.invariant%d.preserved", fnName(v.fn), n, i+1), Cond: e.Formula(inv), PC: st.PC(), Kind: "invariant", Fn: fnName(v.fn)})
 	}
@@ -246,8 +282,10 @@ func (x *Exec) havocLike(st *State, v Value, name string) Value {
 	case Scalar:
 		return Scalar{x.freshVar("havoc_"+name, vv.T.S)}
 	case StrV:
-		return StrV{x.freshVar("havoc_"+name, StrS)}
-	case RefV, IfaceV, IfaceM, FuncV:
+		return StrV{x.freshVar("havoc_"+name, vv.T.S)}
+	case RefV:
+		return RefV{x.freshVar("havoc_"+name, vv.T.S)}
+	case IfaceV, IfaceM, FuncV:
 		return RefV{x.freshVar("havoc_"+name, BV(32))}
 	case StructV:
 		r := StructV{F: make([]Value, len(vv.F))}
